@@ -7,6 +7,7 @@ package racepass
 
 import (
 	"context"
+	"encoding/json"
 	"fmt"
 	"net/http"
 	"net/http/httptest"
@@ -244,4 +245,197 @@ func TestRace_Loop(t *testing.T) {
 		wg.Wait()
 		<-done
 	}
+}
+
+type posArg struct {
+	A int    `json:"a"`
+	B string `json:"b"`
+	C []int  `json:"c"`
+}
+
+// TestRace_Handler: ONE handler value of each kind the handler package builds is invoked by many
+// goroutines at once (the server's default concurrency does exactly that), and FuncInfo, Args and
+// Obj values are used concurrently on separate targets.
+func TestRace_Handler(t *testing.T) {
+	fi, err := handler.Check(func(ctx context.Context, p posArg) (posArg, error) { return p, nil })
+	if err != nil {
+		t.Fatal(err)
+	}
+	fi.SetStrict(true)
+	mux := handler.ServiceMap{
+		"s": handler.Map{
+			"pos":    handler.NewPos(func(ctx context.Context, a int, b string, c []int) (string, error) { return fmt.Sprint(a, b, c), nil }, "a", "b", "c"),
+			"strict": fi.Wrap(),
+			"st":     handler.New(func(ctx context.Context, p *posArg) (int, error) { return p.A, nil }),
+			"arr":    handler.New(func(ctx context.Context, v []string) (int, error) { return len(v), nil }),
+			"none":   handler.New(func(ctx context.Context) error { return nil }),
+			"req":    handler.New(func(ctx context.Context, req *jrpc2.Request) (any, error) { return req.Method(), nil }),
+			"args": handler.New(func(ctx context.Context, req *jrpc2.Request) (any, error) {
+				var a int
+				var b string
+				if err := req.UnmarshalParams(&handler.Args{&a, &b}); err != nil {
+					return nil, err
+				}
+				return handler.Args{a, b}, nil
+			}),
+			"obj": handler.New(func(ctx context.Context, req *jrpc2.Request) (any, error) {
+				var a int
+				var b string
+				if err := req.UnmarshalParams(&handler.Obj{"a": &a, "b": &b}); err != nil {
+					return nil, err
+				}
+				return handler.Obj{"a": a, "b": b}, nil
+			}),
+		},
+	}
+	for iter := 0; iter < 2; iter++ {
+		loc := server.NewLocal(mux, &server.LocalOptions{Server: &jrpc2.ServerOptions{Concurrency: 8}})
+		var wg sync.WaitGroup
+		for k := 0; k < 8; k++ {
+			k := k
+			wg.Add(1)
+			go func() {
+				defer wg.Done()
+				ctx := context.Background()
+				for n := 0; n < 80; n++ {
+					var out any
+					loc.Client.CallResult(ctx, "s.pos", []any{k, "b", []int{k, n}}, &out)
+					loc.Client.CallResult(ctx, "s.pos", map[string]any{"a": k, "c": []int{n}}, &out)
+					loc.Client.CallResult(ctx, "s.pos", []any{k}, &out) // wrong length: InvalidParams
+					loc.Client.CallResult(ctx, "s.strict", posArg{A: k, B: "x"}, &out)
+					loc.Client.CallResult(ctx, "s.strict", []any{k, "x", []int{n}}, &out)
+					loc.Client.CallResult(ctx, "s.strict", map[string]any{"a": k, "zz": 1}, &out) // unknown field
+					loc.Client.CallResult(ctx, "s.st", posArg{A: k}, &out)
+					loc.Client.CallResult(ctx, "s.arr", []string{"a", "b"}, &out)
+					loc.Client.CallResult(ctx, "s.none", nil, &out)
+					loc.Client.CallResult(ctx, "s.req", []int{1}, &out)
+					loc.Client.CallResult(ctx, "s.args", []any{k, "b"}, &out)
+					loc.Client.CallResult(ctx, "s.obj", map[string]any{"a": k, "b": "b"}, &out)
+					loc.Client.CallResult(ctx, "s.nope", nil, &out)
+					loc.Client.CallResult(ctx, "rpc.serverInfo", nil, &out)
+					if n%40 == 0 {
+						fi.Wrap()
+						mux.Names()
+					}
+				}
+			}()
+		}
+		wg.Wait()
+		loc.Close()
+	}
+}
+
+type slowWC struct {
+	mu  sync.Mutex
+	buf []byte
+}
+
+func (w *slowWC) Write(p []byte) (int, error) {
+	// take the bytes in two steps, as a pipe with a slow reader does
+	h := len(p) / 2
+	w.mu.Lock()
+	w.buf = append(w.buf, p[:h]...)
+	w.mu.Unlock()
+	time.Sleep(20 * time.Microsecond)
+	w.mu.Lock()
+	w.buf = append(w.buf, p[h:]...)
+	w.mu.Unlock()
+	return len(p), nil
+}
+func (w *slowWC) Close() error { return nil }
+
+// TestRace_Channel: several channels made by ONE framing value are used at the same time, each by
+// its own sender and receiver (the connections of one server): nothing may be shared between them.
+func TestRace_Channel(t *testing.T) {
+	framings := map[string]channel.Framing{
+		"Line": channel.Line, "Split": channel.Split(0x1e), "Header": channel.Header(""), "HeaderT": channel.Header("a/b"),
+		"Strict": channel.StrictHeader("a/b"), "LSP": channel.LSP, "RawJSON": channel.RawJSON,
+	}
+	for name, f := range framings {
+		var wg sync.WaitGroup
+		for k := 0; k < 4; k++ {
+			k := k
+			wg.Add(1)
+			go func() {
+				defer wg.Done()
+				w := &slowWC{}
+				out := f(strings.NewReader(""), w)
+				var recs []string
+				for n := 0; n < 60; n++ {
+					rec := fmt.Sprintf(`{"conn":%d,"n":%d,"pad":%q}`, k, n, strings.Repeat("x", (n*37+k*11)%300))
+					recs = append(recs, rec)
+					if err := out.Send([]byte(rec)); err != nil {
+						t.Errorf("%s: Send: %v", name, err)
+					}
+				}
+				in := f(strings.NewReader(string(w.buf)), w)
+				for n := range recs {
+					if _, err := in.Recv(); err != nil {
+						t.Errorf("%s: Recv %d: %v", name, n, err)
+						break
+					}
+				}
+				in.Recv()
+			}()
+		}
+		wg.Wait()
+	}
+	// the in-memory pair: both directions at once
+	a, b := channel.Direct()
+	var wg sync.WaitGroup
+	for _, p := range [][2]channel.Channel{{a, b}, {b, a}} {
+		p := p
+		wg.Add(2)
+		go func() {
+			defer wg.Done()
+			for n := 0; n < 200; n++ {
+				p[0].Send([]byte(fmt.Sprint(n)))
+			}
+		}()
+		go func() {
+			defer wg.Done()
+			for n := 0; n < 200; n++ {
+				p[1].Recv()
+			}
+		}()
+	}
+	wg.Wait()
+	a.Close()
+	b.Close()
+}
+
+// TestRace_Codec: independent servers, clients and the package-level parsing and error helpers
+// are used at the same time: nothing at package level may be shared between them.
+func TestRace_Codec(t *testing.T) {
+	var wg sync.WaitGroup
+	for k := 0; k < 6; k++ {
+		k := k
+		wg.Add(1)
+		go func() {
+			defer wg.Done()
+			ctx := context.Background()
+			for n := 0; n < 80; n++ {
+				loc := server.NewLocal(methods(), &server.LocalOptions{Server: &jrpc2.ServerOptions{Concurrency: 2, AllowPush: true},
+					Client: &jrpc2.ClientOptions{OnCallback: func(context.Context, *jrpc2.Request) (any, error) { return k, nil }}})
+				var out any
+				loc.Client.CallResult(ctx, "echo", map[string]any{"k": k, "s": "é \x01"}, &out)
+				loc.Client.Batch(ctx, []jrpc2.Spec{{Method: "echo", Params: []int{k}}, {Method: "echo\x7f", Notify: true}, {Method: "nope"}})
+				loc.Client.Notify(ctx, "echo", []int{n})
+				loc.Client.Call(ctx, "push", nil)
+				loc.Client.Call(ctx, "rpc.serverInfo", nil)
+				loc.Close()
+				jrpc2.ParseRequests([]byte(fmt.Sprintf(`[{"jsonrpc":"2.0","id":%d,"method":"m","params":[%d]},{"jsonrpc":"2.0","method":"n"},17, {"id":"x"}]`, k, n)))
+				jrpc2.ParseRequests([]byte(` {"jsonrpc":"2.0","id":"a","method":"m"} `))
+				jrpc2.ParseRequests([]byte(`{"jsonrpc":`))
+				e := jrpc2.Errorf(jrpc2.InvalidParams, "bad %d", k).WithData(map[string]int{"k": k})
+				bits, _ := json.Marshal(e)
+				var e2 jrpc2.Error
+				json.Unmarshal(bits, &e2)
+				jrpc2.ErrorCode(fmt.Errorf("wrapped: %w", e))
+				jrpc2.ErrorCode(context.Canceled)
+				_ = jrpc2.InvalidParams.String()
+			}
+		}()
+	}
+	wg.Wait()
 }
